@@ -7,7 +7,8 @@
 From Coq Require Import ZArith Bool List Arith Lia QArith Qcanon.
 From QV.Core Require Import OF QcOF.
 From QV.Model Require Import C03_Index C03_VarObj C03_SetQOps C03_SetHistory.
-From QV.Proofs Require Import C03_Index C03_VarObj C03_SetQOps C03_Derivative C03_Extra C03_SetHistory C03_ExecSpec.
+From QV.Proofs Require Import C03_Index C03_VarObj C03_SetQOps C03_Derivative C03_Extra C03_SetHistory C03_ExecSpec C03_RegenChunks.
+From QV.Model Require Import C03_PySem.
 From QV.Exec Require Import Base C03_ops.
 Import ListNotations.
 
@@ -270,6 +271,14 @@ Theorem C03_set_total_points_at_entry : forall (F : OF) (s : setq F) (k : kind) 
 Proof. exact set_total_points_at_entry. Qed.
 Print Assumptions C03_set_total_points_at_entry.
 
+(* the regeneration loop of set_qoperations_from_var_total, as the model has it (cut firstn n, continue on skipn n), is generate_from_var
+   applied operation by operation to the pieces [chunks_model] of the operations' variable counts; coq/gen/C03_SetEquiv.v proves that the
+   slices var_total[start:end] of the loop REGENERATED from the source are exactly those pieces *)
+Theorem C03_regen_is_chunks : forall (F : OF) (sdf : nat -> F) (ops : list (qop F)) (v : list F),
+  option_map fst (regen F sdf ops v) = regen_by_chunks F sdf ops (chunks_model (var_counts F ops) v).
+Proof. exact regen_is_chunks. Qed.
+Print Assumptions C03_regen_is_chunks.
+
 (* ------------------------------------------------------------------ SetQOperations over a HISTORY
    (events: the five queries, the four setters, in-place item assignment / insert / pop on the lists the properties hand out;
     the state of the model is the four lists and nothing else, as in qoperations.py) *)
@@ -351,6 +360,14 @@ Theorem C03_exec_static_conversions : forall (o : qop Qc_OF) (sd : Qc) (l : list
     match qop_stacked_to_var Qc_OF (fun _ => sd) o l with Some r => Ok r | None => Err 1 end.
 Proof. intros o sd l. split; [exact (op_var_to_stacked_spec o sd l)|exact (op_stacked_to_var_spec o sd l)]. Qed.
 Print Assumptions C03_exec_static_conversions.
+
+(* the index wrappers: the number of variables and the flat position reported for variable i are the model's *)
+Theorem C03_exec_index_wrappers : forall (o : qop Qc_OF) (i : Z),
+  op_numvar [qop_code o; Z.of_nat (qop_d o); Z.of_nat (qop_m o); flag_code (qop_flag o)] [] = Ok [qz (qop_num_variables Qc_OF o)] /\
+  idx_flat (qop_code o) (Z.of_nat (qop_d o))
+           (idx_fwd (qop_code o) (Z.of_nat (qop_d o)) (Z.of_nat (qop_m o)) (qop_flag o) i) = qop_flat_index Qc_OF o i.
+Proof. intros o i. split; [exact (exec_numvar_spec o)|exact (exec_idx_flat_spec o i)]. Qed.
+Print Assumptions C03_exec_index_wrappers.
 
 (* ------------------------------------------------------------------ non-vacuity: concrete instances over Qc *)
 (* index maps: 1-qubit instrument with 3 outcomes under the constraint has 3*16-4 = 44 variables; variable 40 lives in
